@@ -6,7 +6,7 @@ from props import pipefmt, pipecheck, gen_programs
 
 PID = "C03"
 MANIFEST_ENTRY = {
- "level_claimed": {"category": "proof", "text": "Theorems in coq/Properties/C03.v about executable transliterations of parse() and build(): for EVERY input string lex never panics and always returns (C03_lex_total, from the lexer model of C13), for EVERY token list parse never panics and never exhausts its walk fuel (C03_parse_total, by induction with the count guards as measure); for every sequence of at most 3 tokens over all 73 token types, and every sequence of 4 over a 32-type representative alphabet, parse-then-build is Ok or Err, never Panic or out of fuel (vm_compute enumeration lifted by forallb_forall, bound in the theorem names). The models are tied to /repo on every run: the parser's tables (definitions, priorities, adjacency matrix) are regenerated from parser.rs into coq/Gen/Defs.v, and model and implementation are run on all 394,419 short token sequences, representative soups, generated programs, mutated programs and character soups and compared node-for-node and instruction-for-instruction; any PANIC / HANG / CRASH of the real lex/parse/build (run in a killable child with a deadline) is a violation. Partial: the builder's totality on arbitrary proper trees is not proved beyond the bounds; wall-clock and native stack are measured (scaling runs in the thorough tier), not proved.", "design_ref": "DESIGN.md section 8 C03"},
+ "level_claimed": {"category": "proof", "text": "Theorems in coq/Properties/C03.v about executable transliterations of parse() and build(): for EVERY input string lex never panics and always returns (C03_lex_total, from the lexer model of C13), for EVERY token list parse never panics and never exhausts its walk fuel (C03_parse_total, by induction with the count guards as measure); for every sequence of at most 3 tokens over all 73 token types, and every sequence of 4 over a 32-type representative alphabet, parse-then-build is Ok or Err, never Panic or out of fuel (vm_compute enumeration lifted by forallb_forall, bound in the theorem names). The models are tied to /repo on every run: the parser's tables (definitions, priorities, adjacency matrix) are regenerated from parser.rs into coq/Gen/Defs.v, and model and implementation are run on all 394,419 short token sequences, representative soups, generated programs, mutated programs and character soups and compared node-for-node and instruction-for-instruction; any PANIC / HANG / CRASH of the real lex/parse/build (run in a killable child with a deadline) is a violation. for EVERY node array, initial data object and literal outcome build is Ok or Err (C03_build_total: build.rs checks its links and caps its node loop; invariant proof over the two worklist loops), hence C03_full: the whole statement over the models, unbounded. Partial only in what a model cannot exhibit: wall-clock and native stack are measured (deadline per case, scaling runs in the thorough tier), not proved.", "design_ref": "DESIGN.md section 8 C03"},
  "level_note": "Trusted: Coq kernel (vm_compute), translator tools/sync/defs.py, extraction (ExtrOcamlBasic), the Rust harness with its supervising parent process, literal parsing as an oracle of the builder model. No axioms (Print Assumptions: closed).",
  "technique": "Coq proof (induction + vm_compute finite enumeration) over transliterated parser/builder models + differential correspondence"}
 
